@@ -90,6 +90,8 @@ func scratchDir() string {
 	d := filepath.Join(base, fmt.Sprintf("verif-mcrew-%d", os.Getpid()))
 	os.MkdirAll(filepath.Join(d, "specs"), 0o755)
 	os.WriteFile(filepath.Join(d, "specs", "counter.yaml"), []byte(counterSpec), 0o644)
+	// the same machine with declared parameters: the add operation of the protocol fills in their defaults
+	os.WriteFile(filepath.Join(d, "specs", "pcounter.yaml"), []byte(strings.Replace(counterSpec, "name: counter\n", "name: pcounter\nparamspecs:\n  limit:\n    primitiveType: number\n    default: 3\n  label:\n    primitiveType: string\n    default: plain\n", 1)), 0o644)
 	return d
 }
 
@@ -150,6 +152,14 @@ func (e *svcEnv) do(ctx context.Context, op svcOp) string {
 	switch op.K {
 	case "add":
 		return errStr(s.AddMachine(ctx, "counter", op.Id, "start", nil))
+	case "addop":
+		// the add operation of the service protocol (what the TCP, HTTP and WebSocket front ends run), for a
+		// specification with parameter defaults; the client gives no bindings
+		o := &SOp{COp: &COp{Add: &OpAdd{Machine: &crew.Machine{Id: op.Id, SpecSource: &crew.SpecSource{Name: "pcounter"}}}}}
+		if err := o.Do(ctx, s); err != nil {
+			return "ERR:" + err.Error()
+		}
+		return o.COp.Add.Err
 	case "rem":
 		return errStr(s.RemMachine(ctx, op.Id))
 	case "inc", "poison", "bcast", "half":
@@ -507,7 +517,7 @@ func C16(c *vh.Ctx) {
 	maxLen := c.Pick(4, 5)
 	alphabet := []svcOp{{K: "add", Id: "m1"}, {K: "add", Id: "m2"}, {K: "add", Id: ""}, {K: "rem", Id: "m1"}, {K: "rem", Id: "ghost"}, {K: "inc", Id: "m1"}, {K: "bcast"}, {K: "poison", Id: "m1"}, {K: "half"}, {K: "down"}, {K: "up"}, {K: "failnext"}, {K: "failcommit"}}
 	c.Bound("fault_sequence_max", maxLen)
-	c.Rule("(sequential fault sequences) every operation sequence up to the bound over {add m1, add m2, add \"\", remove m1, remove a machine that does not exist, process->m1, process broadcast, process a message that makes m1's bindings unserialisable, a broadcast that only some machines of the batch survive (the others end with a value that cannot be stored), store stops working, store works again, the next write transaction fails before it starts, the next write transaction fails at commit} on a real Service over a real bolt file (tmpfs); after every operation the in-memory crew must equal the stored crew (read back through a second handle while the store is down), and an operation that failed must not have changed the crew; also sequences of up to three operations in which add / remove / process requests arrive with a context that has already ended. (schedules) 2-3 client threads issuing process / add / remove / read-crew with yield points inside the machine's action and at the shimmed crew lock, store healthy or failing, every schedule within the deviation bound; the per-operation results and the final (memory, store) must equal those of some sequential order of the operations (the service itself, run sequentially, is the reference), and memory must equal the store. states = sequences + scenarios, transitions = operations + scheduler steps.")
+	c.Rule("(sequential fault sequences) every operation sequence up to the bound over {add m1, add m2, add \"\", remove m1, remove a machine that does not exist, process->m1, process broadcast, process a message that makes m1's bindings unserialisable, a broadcast that only some machines of the batch survive (the others end with a value that cannot be stored), store stops working, store works again, the next write transaction fails before it starts, the next write transaction fails at commit} on a real Service over a real bolt file (tmpfs); after every operation the in-memory crew must equal the stored crew (read back through a second handle while the store is down), and an operation that failed must not have changed the crew; also sequences of up to three operations in which add / remove / process requests arrive with a context that has already ended, and in which machines are added through the add operation of the service protocol for a specification with parameter defaults. (schedules) 2-3 client threads issuing process / add / remove / read-crew with yield points inside the machine's action and at the shimmed crew lock, store healthy or failing, every schedule within the deviation bound; the per-operation results and the final (memory, store) must equal those of some sequential order of the operations (the service itself, run sequentially, is the reference), and memory must equal the store. states = sequences + scenarios, transitions = operations + scheduler steps.")
 	var idx uint64
 	var rec func(cur []svcOp)
 	rec = func(cur []svcOp) {
@@ -531,10 +541,17 @@ func C16(c *vh.Ctx) {
 	// requests whose context has already ended (a client that went away): whatever the service makes of them,
 	// memory and store move together
 	{
-		dead := []svcOp{{K: "add", Id: "m1"}, {K: "inc", Id: "m1"}, {K: "add", Id: "m1", Dead: true}, {K: "add", Id: "m2", Dead: true}, {K: "rem", Id: "m1", Dead: true}, {K: "inc", Id: "m1", Dead: true}, {K: "bcast", Dead: true}, {K: "failnext"}}
+		dead := []svcOp{{K: "add", Id: "m1"}, {K: "inc", Id: "m1"}, {K: "add", Id: "m1", Dead: true}, {K: "add", Id: "m2", Dead: true}, {K: "rem", Id: "m1", Dead: true}, {K: "inc", Id: "m1", Dead: true}, {K: "bcast", Dead: true}, {K: "failnext"},
+			{K: "addop", Id: "m1"}, {K: "addop", Id: "m3"}, {K: "inc", Id: "m3"}}
 		var recDead func(cur []svcOp)
 		recDead = func(cur []svcOp) {
-			if len(cur) > 0 && cur[len(cur)-1].Dead {
+			special := false
+			for _, o := range cur {
+				if o.Dead || o.K == "addop" {
+					special = true
+				}
+			}
+			if len(cur) > 0 && special {
 				idx++
 				if c.Mine(idx) && !c.Expired() {
 					c.R.States++
